@@ -37,4 +37,18 @@ static inline unsigned long __verif_min_unsigned_long(unsigned long a, unsigned 
 static inline unsigned long __verif_max_unsigned_long(unsigned long a, unsigned long b) { return a < b ? b : a; }
 static inline double __verif_min_double(double a, double b) { return b < a ? b : a; }
 static inline double __verif_max_double(double a, double b) { return a < b ? b : a; }
+
+/* std::numeric_limits<T>::epsilon()/max()/min()/lowest() */
+#define __verif_FLT_EPSILON 1.1920928955078125e-7f
+#define __verif_DBL_EPSILON 2.220446049250313080847263336181640625e-16
+#define __verif_FLT_MAX 3.40282346638528859811704183484516925e+38f
+#define __verif_DBL_MAX 1.79769313486231570814527423731704357e+308
+#define __verif_FLT_MIN 1.17549435082228750796873653722224568e-38f
+#define __verif_DBL_MIN 2.22507385850720138309023271733240406e-308
+#define __verif_INT_MAX 2147483647
+#define __verif_INT_MIN (-2147483647 - 1)
+#define __verif_LONG_MAX 9223372036854775807L
+#define __verif_LONG_MIN (-9223372036854775807L - 1)
+#define __verif_ULONG_MAX 18446744073709551615UL
+#define __verif_UINT_MAX 4294967295U
 #endif
